@@ -101,6 +101,14 @@ def twice {β : Type} (f : β → Option β) (x : β) (show1 : β → String) (t
     | none => "ABORT"
     | some z => s!"{t1} {show1 y} {t2} {show1 z}"
 
+/-- the same with the abort class of the call that failed -/
+def twiceC {β : Type} (f : β → Option β) (cls : β → String) (x : β) (show1 : β → String) (t1 t2 : String) : String :=
+  match f x with
+  | none => cls x
+  | some y => match f y with
+    | none => cls y
+    | some z => s!"{t1} {show1 y} {t2} {show1 z}"
+
 def csrP : P (Csr Rat) := do
   let rows ← nat; let cols ← nat
   let rp ← natList; let ci ← natList; let v ← listOf ratN
@@ -133,7 +141,7 @@ def handle : P String := do
     let v ← vecP
     match f with
     | none => pure "ABORT"
-    | some f => pure (twice (f.apply m) v showLeaves "R" "R2")
+    | some f => pure (twiceC (f.apply m) (f.failClass m) v showLeaves "R" "R2")
   | "gvec" =>
     -- Global::Filter<F, Mirror>::filter_*(v) = F::filter_*(v.local())
     let m ← modeP
@@ -143,7 +151,7 @@ def handle : P String := do
     let v ← vecP
     match f with
     | none => pure "ABORT"
-    | some f => pure (twice (f.apply m) v showLeaves "R" "R2")
+    | some f => pure (twiceC (f.apply m) (f.failClass m) v showLeaves "R" "R2")
   | "gmean" =>
     let m ← modeP
     let comm ← nat; let n ← nat
@@ -151,7 +159,7 @@ def handle : P String := do
     let freq ← listOf ratN
     let v ← vecP
     match GMeanF.make (comm != 0) prim dual freq, v with
-    | some f, .leaf x => pure (twice (f.apply m) x showQsL "R" "R2")
+    | some f, .leaf x => pure (twiceC (f.apply m) (f.failClass m) x showQsL "R" "R2")
     | none, _ => pure "ABORT"
     | _, _ => throw "gmean: dense vector expected"
   | "mat" =>
